@@ -480,6 +480,11 @@ func (e *Evaluator) evalDumpStmt(node *ast.DumpStmt, env *object.Env) object.Obj
 
 	for _, arg := range node.Arguments {
 		val := e.Eval(arg, env)
+
+		if isError(val) {
+			return val
+		}
+
 		values = append(values, val.Dump(0))
 	}
 
